@@ -2942,10 +2942,18 @@ class PlateSlicer(Slicer):
                     elem2.instructions = "\n".join(instructions)
                 return elem1, elem2
 
-            func = numpy.frompyfunc(helper, 2, 2)
-            frm_result, to_result = func(frm.get(), to.get())
-            frm.set(frm_result)
-            to.set(to_result)
+            if isinstance(frm.slices, list) and isinstance(to.slices, list):
+                # well by well: a well named more than once takes part with its current contents each time
+                for (frm_row, frm_col), (to_row, to_col) in zip(frm.slices, to.slices):
+                    frm_index = (frm_row.start or 0, frm_col.start or 0)
+                    to_index = (to_row.start or 0, to_col.start or 0)
+                    frm.plate.wells[frm_index], to.plate.wells[to_index] = \
+                        helper(frm.plate.wells[frm_index], to.plate.wells[to_index])
+            else:
+                func = numpy.frompyfunc(helper, 2, 2)
+                frm_result, to_result = func(frm.get(), to.get())
+                frm.set(frm_result)
+                to.set(to_result)
         else:
             raise ValueError("Source and destination slices must be the same size and shape.")
 
